@@ -83,8 +83,8 @@ Inductive ev :=
 | StreamNext (o : nat) | StreamFinish (o : nat)
 | Advance (dt : Z).
 
-Definition fill_reply (p : option resp) (c : cop) : cop :=   (* send to a dropped receiver fails; a one-shot is sent at most once *)
-  if waiting c then match o_reply c with OsEmpty => c <| o_reply := OsFilled p |> | _ => c end else c.
+Definition fill_reply (p : option resp) (c : cop) : cop :=   (* a one-shot is sent at most once; sending to a dropped receiver fails and the sender is consumed *)
+  match o_reply c with OsEmpty => if waiting c then c <| o_reply := OsFilled p |> else c <| o_reply := OsClosed |> | _ => c end.
 
 Definition step (s : st) (e : ev) : st :=
   match e with
@@ -105,7 +105,7 @@ Definition step (s : st) (e : ev) : st :=
       let s0 := s <| opq := q |> <| wout ::= fun w => w ++ [(mid, o_kind c)] |> in
       match o_kind c with
       | KSingle =>
-          if fix16 (fx s) && negb (waiting c) then s0
+          if fix16 (fx s) && negb (waiting c) then updop o drop_reply s0
           else drop_entry (rmap s0) mid drop_reply s0 <| rmap ::= ainsert mid o |>
       | KSearch _ =>
           let s1 := drop_entry (smap s0) mid close_chan s0 <| smap ::= ainsert mid o |> in
